@@ -66,6 +66,8 @@ def build(case):
     sv = case['sortvals']
     if case.get('big'):
         sv = [BIG[v % len(BIG)] for v in case['bigvals']]
+    if case.get('listkeys'):
+        sv = [[v, 'x'] for v in sv]  # comparable but unhashable sort values ([speaker, length])
     if case.get('unsigned'):
         import numpy as np
         sv = [[np.uint8, np.uint16, np.uint32][case['unsigned'] % 3](v) for v in sv]  # e.g. a length read from a file
@@ -242,6 +244,8 @@ def st_case(draw):
             case['bigvals'] = draw(st.lists(st.integers(0, 7), min_size=8, max_size=8))
         elif not case['keyless'] and draw(st.integers(0, 3)) == 0:
             case['unsigned'] = draw(st.integers(1, 3))
+        elif not case['keyless'] and draw(st.integers(0, 3)) == 0:
+            case['listkeys'] = True
     else:
         palette = draw(st.lists(st.integers(0, len(GIDS) - 1), min_size=1, max_size=4))
         case['gids'] = draw(st.lists(st.sampled_from(palette), min_size=8, max_size=8))
